@@ -298,7 +298,7 @@ func (t *Template) ParseFromTrustedTemplate(tmpl TrustedTemplate) (*Template, er
 func (t *Template) Clone() (*Template, error) {
 	t.nameSpace.mu.Lock()
 	defer t.nameSpace.mu.Unlock()
-	if t.escapeErr != nil {
+	if t.escapeErr != nil || t.nameSpace.escaped {
 		return nil, fmt.Errorf("html/template: cannot Clone %q after it has executed", t.Name())
 	}
 	textClone, err := t.text.Clone()
@@ -353,6 +353,10 @@ func New(name string) *Template {
 // If a template with the given name already exists, the new HTML template
 // will replace it. The existing template will be reset and disassociated with
 // t.
+//
+// Once a template associated with t has been executed, the templates of the set
+// can neither be replaced nor added to: the new template is not registered, and
+// parsing into it fails.
 func (t *Template) New(name string) *Template {
 	t.nameSpace.mu.Lock()
 	defer t.nameSpace.mu.Unlock()
@@ -366,6 +370,11 @@ func (t *Template) new(name string) *Template {
 		t.text.New(name),
 		nil,
 		t.nameSpace,
+	}
+	if t.nameSpace.escaped {
+		// The templates of the set cannot be redefined any more: tmpl does not replace an
+		// existing template and cannot be looked up, and parsing into it fails.
+		return tmpl
 	}
 	if existing, ok := tmpl.set[name]; ok {
 		emptyTmpl := New(existing.Name())
